@@ -50,12 +50,20 @@ pub fn forms() -> Vec<Form> {
         f("jsonl", r#"{"event_type":"A","data":{"x":null}}"#),
         f("jsonl", r#"{"event_type":"A","data":{"x":[1]}}"#),
         f("jsonl", r#"{"event_type":"B","data":{"x":2,"y":"t"}}"#),
+        // indented forms of the directive / prefix / comment / JSONL lines (added after seeded change
+        // C46: a reader that stops trimming leading blanks)
+        f("timing_prefix_padded", "  @0s A { x: 1 }"),
+        f("batch_directive_padded", "\tBATCH 10"),
+        f("comment_padded", "  # c"),
+        f("jsonl_padded", "  {\"event_type\":\"A\",\"data\":{\"x\":1}}"),
         f("malformed_event", "A x"),
         f("malformed_event", "A { x }"),
         f("malformed_json", "{\"x\":"),
         f("batch_directive:bad_value", "BATCH x"),
         f("timing_prefix:bad_value", "@x A { x: 1 }"),
         f("timing_prefix:no_event", "@5s"),
+        f("batch_directive_padded:bad_value", "  BATCH x"),
+        f("timing_prefix_padded:bad_value", "  @x A { x: 1 }"),
     ]
 }
 
@@ -285,7 +293,7 @@ pub fn run(args: &Args) -> ! {
 
     rep.set("line_forms", json!(table.iter().map(|f| json!({"class": f.class, "line": f.text})).collect::<Vec<_>>()));
     rep.rule = format!(
-        "Exhaustive: every file of 0..={max_len} lines over the {k} line forms listed in `line_forms` (plain `T {{ f: v }}` with v in 1, 1.5, \"s\", true, null, [1] and a two-field event; `BATCH n`; `@Ns`, `@Nms`, `@N` prefixes; JSONL with the same values; `#` and `//` comments; blank; trailing `;`; positional `T(v, v)`; padded; malformed event / JSON / BATCH / timing lines), each line followed by \\n; plus every file of 1..={} lines with CRLF terminators and with the final newline missing. Both readers run on the same bytes. Non-trivial = at least one reader returned at least one event.",
+        "Exhaustive: every file of 0..={max_len} lines over the {k} line forms listed in `line_forms` (plain `T {{ f: v }}` with v in 1, 1.5, \"s\", true, null, [1] and a two-field event; `BATCH n`; `@Ns`, `@Nms`, `@N` prefixes; JSONL with the same values; `#` and `//` comments; blank; trailing `;`; positional `T(v, v)`; padded; indented `@Ns`, `BATCH n`, comment and JSONL lines; malformed event / JSON / BATCH / timing lines), each line followed by \\n; plus every file of 1..={} lines with CRLF terminators and with the final newline missing. Both readers run on the same bytes. Non-trivial = at least one reader returned at least one event.",
         max_len - 1
     );
     rep.assume("events are compared by event type and field values (name-sorted, Debug form of the value, so Int(1) and Float(1.0) differ); timestamps and time offsets are ignored as the property text says");
